@@ -383,6 +383,8 @@ impl<Leaf: MerkleLeaf, Root: MerkleRoot, Proof: MerkleProof> MerkleTree<Leaf, Ro
     #[must_use]
     fn check_hash_proof(hash: Hash, index: usize, root: &Root, proof: &Proof) -> bool {
         proof.as_ref().len() <= EMPTY_ROOTS.len()
+            // the index must lie within the width of the tree the proof spans
+            && index >> proof.as_ref().len() == 0
             && *Self::derive_hash_root(hash, index, proof).as_hash() == *root.as_hash()
     }
 
@@ -446,6 +448,10 @@ impl<Leaf: MerkleLeaf, Root: MerkleRoot, Proof: MerkleProof> MerkleTree<Leaf, Ro
                 _ => Self::hash_pair(h, &node),
             };
             i /= 2;
+        }
+        // the index must lie within the width of the tree the proof spans
+        if i != 0 {
+            return None;
         }
         Some(node.into())
     }
